@@ -7,6 +7,7 @@ import (
 
 	"golang.org/x/tools/go/ssa"
 
+	"redactverif/engine"
 	"redactverif/report"
 )
 
@@ -15,6 +16,7 @@ func init() {
 	register("C16.b", ruleC16b)
 	register("C16.c", ruleC16c)
 	register("C16.d", ruleC16d)
+	register("C16.e", ruleC16e)
 }
 
 // callsInOrder lists the call instructions of fn's non-recover blocks in
@@ -126,7 +128,7 @@ func stripConv(v ssa.Value) ssa.Value {
 	}
 }
 
-var printEntryPoints = []string{"Sprint", "Sprintf", "Fprint", "Fprintf", "HelperForErrorf", "Sprintfn", "EscapeBytes", "EscapeMarkers"}
+var printEntryPoints = []string{"Sprint", "Sprintf", "Fprint", "Fprintf", "HelperForErrorf", "Sprintfn", "EscapeBytes"}
 
 // ruleC16a: the S/F entry points follow one protocol around doPrint*, and the
 // public façade forwards to them unchanged.
@@ -432,6 +434,7 @@ func ruleC16d(c *Ctx) []*report.Result {
 			subst  map[ssa.Value]ssa.Value
 		}
 		var deferredHelpers []pending
+		depth := 0
 		var walk func(f *ssa.Function, subst map[ssa.Value]ssa.Value)
 		walk = func(f *ssa.Function, subst map[ssa.Value]ssa.Value) {
 			res := func(v ssa.Value) ssa.Value {
@@ -472,6 +475,36 @@ func ruleC16d(c *Ctx) []*report.Result {
 						case n == "(*internal/rfmt.pp).free":
 							if res(x.Common().Args[0]) == np {
 								steps = append(steps, "free")
+							}
+						default:
+							// a set-up helper of the printer (one that creates
+							// the nested printer) is read in place
+							callee := x.Common().StaticCallee()
+							if callee != nil && callee.Blocks != nil && recvNamed(callee) == tPP && depth < 3 && callsFn(callee, "internal/rfmt.newPrinter") {
+								m := map[ssa.Value]ssa.Value{}
+								for k, v := range subst {
+									m[k] = v
+								}
+								for i, a := range x.Common().Args {
+									if i < len(callee.Params) {
+										m[callee.Params[i]] = res(a)
+									}
+								}
+								depth++
+								walk(callee, m)
+								depth--
+								if rv := singleReturn(callee); rv != nil {
+									if r2, ok := m[rv]; ok {
+										rv = r2
+									}
+									if subst == nil {
+										subst = map[ssa.Value]ssa.Value{}
+									}
+									subst[x] = rv
+									if rv == np {
+										// the helper returned the nested printer
+									}
+								}
 							}
 						}
 					case *ssa.Store:
@@ -546,6 +579,18 @@ func ruleC16d(c *Ctx) []*report.Result {
 	return []*report.Result{r}
 }
 
+// callsFn: fn contains a static call of the named function.
+func callsFn(fn *ssa.Function, name string) bool {
+	for _, b := range fn.Blocks {
+		for _, ins := range b.Instrs {
+			if ci, ok := ins.(ssa.CallInstruction); ok && calleeName(ci) == name {
+				return true
+			}
+		}
+	}
+	return false
+}
+
 // linearOrder returns fn's blocks (without the recover block) in a
 // topological order of the acyclic CFG (reverse post-order).
 func linearOrder(fn *ssa.Function) []*ssa.BasicBlock {
@@ -567,4 +612,62 @@ func linearOrder(fn *ssa.Function) []*ssa.BasicBlock {
 		post[i], post[j] = post[j], post[i]
 	}
 	return post
+}
+
+// ruleC16e: an argument list is never printed under an inherited Safe().
+// The safe override belongs to one operand: it is installed by the
+// classification code around that operand and restored after it. A printer
+// that starts on an argument list (doPrint, doPrintf, doPrintln: the printer
+// methods taking the []interface{} and reaching printArg) with the safe
+// override already in force treats every operand as safe, which no entry
+// point does for the same arguments: the routes would disagree.
+func ruleC16e(c *Ctx) []*report.Result {
+	a := c.AFmt()
+	r := report.NewResult("C16.e", "in every reachable configuration the printer methods that take the argument list (doPrint/doPrintf/doPrintln) are entered with override none or unsafe, never with the safe override of an enclosing operand: a nested Print/Printf classifies its operands exactly as the top-level entry points do (the unsafe override alone is inherited, C06.a)", 6)
+	pa := c.P.Func("internal/rfmt", "(*pp).printArg")
+	listPrinters := map[*ssa.Function]bool{}
+	for _, fn := range c.P.ModuleFunctions() {
+		if recvNamed(fn) != tPP || fn.Parent() != nil || fn.Object() == nil || fn.Object().Exported() {
+			continue
+		}
+		takesList := false
+		for _, p := range fn.Params[1:] {
+			if sl, ok := p.Type().Underlying().(*types.Slice); ok {
+				if it, ok := sl.Elem().Underlying().(*types.Interface); ok && it.Empty() {
+					takesList = true
+				}
+			}
+		}
+		if !takesList || pa == nil {
+			continue
+		}
+		for _, g := range c.staticCallees(fn) {
+			if g == pa || c.reach(g, true)[pa] {
+				listPrinters[fn] = true
+			}
+		}
+	}
+	if len(listPrinters) < 2 {
+		r.Undecide(fmt.Sprintf("expected the print and printf argument-list printers, found %d", len(listPrinters)))
+		return []*report.Result{c.finish(r)}
+	}
+	for _, k := range sortedSummaryKeys(a.It) {
+		s := a.It.Summaries[k]
+		if !listPrinters[s.Fn] || len(s.Args) == 0 {
+			continue
+		}
+		recv, ok := s.Args[0].(engine.Ptr)
+		if !ok {
+			continue
+		}
+		ov := overrideName(s.Entry.Get(recv.Obj, "override"))
+		name := shortFn(s.Fn.String())
+		cfg := cfgString(ppConfig(s.Entry, recv.Obj))
+		if ov == "safe" {
+			r.Fail(name+" / entered under a safe override", c.P.Pos(s.Fn.Pos()), "the argument list is printed with the safe override of an enclosing operand in force: operands of a nested Print/Printf that are not declared safe are rendered outside envelopes, unlike Sprint/Sprintf for the same arguments", nil, "entry: "+cfg)
+		} else {
+			r.Ok(name + " entered with [" + cfg + "]")
+		}
+	}
+	return []*report.Result{c.finish(r)}
 }
